@@ -104,6 +104,12 @@ func design(rep *mbt.Report, tier string) (asImpl, repaired map[string]bool) {
 		// the already-printed state too (and between printers of different modules: the cell belongs to no module)
 		{label: "sensitivity: package-level scratch state, already printed", cfg: "PrintConc.cfg", consts: with(two, "SharedScratch", "TRUE"), expect: []string{"NoRace", "TextEqual"}},
 		{label: "pkgstate classes, 2 module printers, printed", cfg: "PrintConcLog.cfg", consts: with(two, "SharedScratch", "TRUE"), collect: true},
+		// printed-then-edited (stale local IDs) and functions attached by hand (Parent nil): the code locks the
+		// function's own mutex however the function was attached
+		{label: "repaired, stale local IDs, orphan function, 2 module printers", cfg: "PrintConc.cfg", consts: with(two, "StaleLocals", "TRUE", "Orphans", "{1}")},
+		{label: "repaired, stale local IDs, module+func+block", cfg: "PrintConcLog.cfg", consts: with(mixed, "StaleLocals", "TRUE"), collect: true},
+		{label: "sensitivity: AssignIDs locks the parent module's mutex, none for an orphan, fresh", cfg: "PrintConc.cfg", consts: with(two, "StartPrinted", "FALSE", "Orphans", "{1}", "LockViaParent", "TRUE"), expect: []string{"NoRace", "Mutex"}},
+		{label: "sensitivity: AssignIDs locks the parent module's mutex, none for an orphan, stale", cfg: "PrintConc.cfg", consts: with(two, "StaleLocals", "TRUE", "Orphans", "{1}", "LockViaParent", "TRUE"), expect: []string{"NoRace", "Mutex"}},
 		// no deadlock between the two mutexes: every printer terminates
 		{label: "repaired, termination", cfg: "PrintConcLive.cfg", consts: with(two, "StartPrinted", "FALSE")},
 		// sensitivity: with a Lock removed the model must fail
@@ -491,10 +497,20 @@ func scenarios(tier string, seed int64) []scenario {
 	var out []scenario
 	ns := []int{2, 4, 8}
 	for _, src := range sources(tier) {
-		for _, start := range []string{"never-printed", "already-printed"} {
+		for _, start := range []string{"never-printed", "already-printed", "printed-then-edited"} {
 			for _, mixName := range []string{"module", "mixed", "func+block"} {
 				if src.ModulePrintersOnly && mixName != "module" {
 					continue
+				}
+				if start == "printed-then-edited" {
+					// stale IDs after an edit: module printers on every built source and on the parsed mix,
+					// all entry points on built:mix
+					if !(strings.HasPrefix(src.Name, "built:") || src.Name == "parsed:mix") {
+						continue
+					}
+					if mixName == "func+block" || (mixName == "mixed" && src.Name != "built:mix") {
+						continue
+					}
 				}
 				for _, n := range ns {
 					if !src.Unnamed && n != 4 {
@@ -504,7 +520,7 @@ func scenarios(tier string, seed int64) []scenario {
 						continue // corpus files: one N per start state and mix
 					}
 					sc := scenario{Source: src.Name, Tier: tier, Start: start, Mix: mixName, N: n}
-					if start == "never-printed" {
+					if start != "already-printed" {
 						// a module is fresh once: many rounds, few calls per round
 						sc.Rounds, sc.K = 60, 2
 					} else {
@@ -562,6 +578,9 @@ func numberedStart(sc scenario) bool {
 	if sc.FreshKnown {
 		return sc.FreshWrites == 0
 	}
+	if sc.Start == "printed-then-edited" {
+		return false
+	}
 	return strings.HasPrefix(sc.Source, "parsed:")
 }
 
@@ -585,6 +604,8 @@ func idsLabel(sc scenario) string {
 		l += "|built=late-fields"
 	case "built:literals":
 		l += "|built=literal"
+	case "built:by-hand":
+		l += "|built=by-hand"
 	}
 	return l
 }
